@@ -119,6 +119,34 @@ def check_member(arg):
     return fails, 1
 
 
+GROUP_MEMBERS = [["10.0.0.0/30"], ["10.0.0.0/30", "192.168.1.0/24"], ["10.0.0.0/24"], ["10.0.0.0/25", "10.0.0.128/25"], []]
+
+
+def check_group_pair(arg):
+    """grouped addresses: a positive answer implies true containment (same or different group names, any members)"""
+    import cisco_acl
+    from cisco_acl import functions as f
+    platform, na, ia, nb, ib = arg
+    kw = "object-group" if platform == "ios" else "addrgroup"
+
+    def mk(name, members):
+        a = cisco_acl.Address(f"{kw} {name}", platform=platform)
+        a.items = [cisco_acl.Address(m if platform == "nxos" else cisco_acl.Address(m, platform="nxos").wildcard, platform=platform) for m in members]
+        return a
+    a, b = mk(na, GROUP_MEMBERS[ia]), mk(nb, GROUP_MEMBERS[ib])
+    ca = [c for m in GROUP_MEMBERS[ia] for c in ref_cubes(m, "nxos")]
+    cb = [c for m in GROUP_MEMBERS[ib] for c in ref_cubes(m, "nxos")]
+    contained = sets.union_subset(ca, cb) is None
+    fails = []
+    for name, got in (("Address.subnet_of", a.subnet_of(b)), ("functions.subnet_of", f.subnet_of(top=b, bottom=a))):
+        if got and not contained:
+            fails.append(dict(key=f"bounded/{name}:group:wrong-yes", what=f"group {na}{GROUP_MEMBERS[ia]} reported as subnet of group {nb}{GROUP_MEMBERS[ib]} ({platform}) but is not contained",
+                              inputs=dict(platform=platform, bottom=[na, GROUP_MEMBERS[ia]], top=[nb, GROUP_MEMBERS[ib]]),
+                              cmd=("import sys; sys.path.insert(0, 'props'); import C13\n"
+                                   f"fails, _ = C13.check_group_pair({arg!r})\nprint([f['what'] for f in fails]); sys.exit(1 if fails else 0)\n")))
+    return fails, 1
+
+
 def main(chk):
     chk.prove(["c_helpers", "c_shadow", "c_address"])
     chk.lemmas(lemmas())
@@ -129,6 +157,9 @@ def main(chk):
         ("AddressAg in AddressAg, AddressAg in AddrGroup", check_member,
          [(p, i, j, g) for p in ("ios", "nxos") for i in range(len(AG[p])) for j in range(len(AG[p])) for g in ((j,), (j, (j + 3) % 9), (1, 7))],
          "all ordered pairs of 9 member spellings per platform x 3 group compositions"),
+        ("grouped addresses (same / different group names, any members): a positive answer implies containment", check_group_pair,
+         [(p, na, ia, nb, ib) for p in ("ios", "nxos") for na in ("WEB", "DB") for nb in ("WEB", "DB") for ia in range(5) for ib in range(5)],
+         "2 group names x 5 member lists on each side, both platforms"),
     ]:
         t0 = time.time()
         res = pmap(fn, cases)
